@@ -242,6 +242,77 @@ impl<T: MaxProbe> MaxProbe for MGen<T> {
 #[derive(DeriveMaxSize)]
 pub enum MNever {}
 
+/// serde field attributes next to the in-tree derive: every field that can still be WRITTEN must be counted
+#[derive(Serialize, Deserialize, Debug, DeriveMaxSize)]
+pub struct MSkip {
+    pub id: u8,
+    #[serde(skip_deserializing)]
+    pub uptime: u64,
+    #[serde(skip_serializing_if = "Option::is_none")]
+    pub note: Option<u32>,
+    #[serde(default)]
+    pub dflt: i64,
+    #[serde(rename = "renamed")]
+    pub r: u16,
+}
+#[derive(Serialize, Deserialize, Debug, DeriveMaxSize)]
+pub enum MSkipE {
+    A {
+        #[serde(skip_deserializing)]
+        x: u64,
+        y: u8,
+    },
+    B(#[serde(skip_deserializing)] u32, u16),
+    #[serde(rename = "see")]
+    C(#[serde(skip_serializing_if = "Option::is_none")] Option<u128>),
+}
+
+/// heapless vectors of zero-sized elements can have capacities far beyond 2^32 at no cost; the length prefix
+/// still has to be covered by the declared maximum.
+fn huge_capacity_zst<const N: usize>(t: &mut Tctx) {
+    let name = format!("heapless::Vec<(), {}>", N);
+    let max = <heapless::Vec<(), N> as MaxSize>::POSTCARD_MAX_SIZE;
+    let max_p = <heapless::Vec<std::marker::PhantomData<u64>, N> as MaxSize>::POSTCARD_MAX_SIZE;
+    let max_a = <heapless::Vec<[u8; 0], N> as MaxSize>::POSTCARD_MAX_SIZE;
+    t.st.count("types");
+    for k in [0usize, 1, 127, 128, 300, 16383, 16384, 70_000, 2_097_152] {
+        if k > N {
+            continue;
+        }
+        let mut v: heapless::Vec<(), N> = heapless::Vec::new();
+        let mut p: heapless::Vec<std::marker::PhantomData<u64>, N> = heapless::Vec::new();
+        let mut a: heapless::Vec<[u8; 0], N> = heapless::Vec::new();
+        for _ in 0..k {
+            let _ = v.push(());
+            let _ = p.push(std::marker::PhantomData);
+            let _ = a.push([]);
+        }
+        t.st.eval();
+        t.st.count("values_checked");
+        t.st.count("huge_capacity_values");
+        t.st.nontrivial(fp_mix(fp(name.as_bytes()), k as u64));
+        let sizes = catch(|| (postcard::experimental::serialized_size(&v), postcard::experimental::serialized_size(&p), postcard::experimental::serialized_size(&a)));
+        match sizes {
+            Ok((Ok(sv), Ok(sp), Ok(sa))) => {
+                for (what, sz, mx) in [("()", sv, max), ("PhantomData<u64>", sp, max_p), ("[u8; 0]", sa, max_a)] {
+                    if sz > mx {
+                        t.st.violation(
+                            &format!("C12:exceeds-declared-max:heapless::Vec<{},{}>", what, N),
+                            format!("heapless::Vec<{}, {}> holding {} elements encodes to {} bytes but POSTCARD_MAX_SIZE is {}", what, N, k, sz, mx),
+                            vec![kv("kind", "c12"), kv("type", name.clone()), kv("declared_max", mx.to_string()), kv("elements", k.to_string())],
+                        );
+                        return;
+                    }
+                }
+            }
+            _ => {
+                t.st.violation("C12:encode-failed", format!("{}: serialized_size failed for {} elements", name, k), vec![kv("kind", "c12"), kv("type", name.clone())]);
+                return;
+            }
+        }
+    }
+}
+
 fn check_type<T>(t: &mut Tctx, name: &str)
 where
     T: Serialize + for<'de> Deserialize<'de> + HasShape + MaxProbe + MaxSize,
@@ -378,6 +449,80 @@ pub fn run(cfg: &Cfg) -> Report {
         ty!(MUnit); ty!(MNew); ty!(MTup); ty!(MEmptyTup); ty!(MNamed); ty!(MEmptyNamed); ty!(MHeap); ty!(MOne); ty!(MTwo); ty!(MData); ty!(MNested); ty!(MStd);
         ty!(MThree); ty!(MFive); ty!(MSix); ty!(MSeven); ty!(MZst); ty!(heapless::Vec<(), 128>); ty!(heapless::Vec<u32, 100>); ty!(heapless::Vec<u64, 16384>);
         ty!(M127); ty!(M128); ty!(M129); ty!(MGen<u8>); ty!(MGen<MData>); ty!(MGen<heapless::String<4>>);
+        // capacities beyond 2^32 (zero-sized elements) and serde field attributes next to the derive
+        i += 1;
+        if t.mine(i) {
+            #[cfg(target_pointer_width = "64")]
+            {
+                huge_capacity_zst::<{ 1 << 32 }>(t);
+                huge_capacity_zst::<{ (1 << 32) + 127 }>(t);
+                huge_capacity_zst::<{ (1 << 32) + 16384 }>(t);
+                huge_capacity_zst::<{ 1 << 35 }>(t);
+                huge_capacity_zst::<{ (1 << 40) + 5 }>(t);
+                huge_capacity_zst::<{ (1 << 49) - 1 }>(t);
+                huge_capacity_zst::<{ 1 << 56 }>(t);
+            }
+            huge_capacity_zst::<{ 1 << 28 }>(t);
+            huge_capacity_zst::<{ (1 << 28) - 1 }>(t);
+            huge_capacity_zst::<{ (1 << 31) + 5 }>(t);
+            huge_capacity_zst::<{ usize::MAX }>(t);
+            huge_capacity_zst::<65_535>(t);
+            huge_capacity_zst::<65_536>(t);
+            huge_capacity_zst::<2_097_151>(t);
+            huge_capacity_zst::<2_097_152>(t);
+        }
+        i += 1;
+        if t.mine(i) {
+            t.st.count("types");
+            t.st.count("types");
+            let rounds = t.cfg.scale(3, 2000, 40_000);
+            for k in 0..rounds {
+                let big = k % 2 == 0;
+                let s1 = MSkip {
+                    id: if big { u8::MAX } else { t.rng.next() as u8 },
+                    uptime: if big { u64::MAX } else { gen_uint(&mut t.rng, 64) as u64 },
+                    note: if big || t.rng.chance(1, 2) { Some(if big { u32::MAX } else { t.rng.next() as u32 }) } else { None },
+                    dflt: if big { i64::MIN } else { t.rng.next() as i64 },
+                    r: if big { u16::MAX } else { t.rng.next() as u16 },
+                };
+                let e: [MSkipE; 3] = [
+                    MSkipE::A { x: if big { u64::MAX } else { gen_uint(&mut t.rng, 64) as u64 }, y: 255 },
+                    MSkipE::B(if big { u32::MAX } else { t.rng.next() as u32 }, u16::MAX),
+                    MSkipE::C(if big || t.rng.chance(1, 2) { Some(u128::MAX >> (t.rng.below(3) * 7)) } else { None }),
+                ];
+                t.st.eval();
+                t.st.count("values_checked");
+                t.st.count("serde_attribute_values");
+                let sizes = catch(|| {
+                    let mut v = vec![(postcard::to_allocvec(&s1).map(|b| b.len()), MSkip::POSTCARD_MAX_SIZE, "MSkip")];
+                    for x in &e {
+                        v.push((postcard::to_allocvec(x).map(|b| b.len()), MSkipE::POSTCARD_MAX_SIZE, "MSkipE"));
+                    }
+                    v
+                });
+                match sizes {
+                    Ok(v) => {
+                        for (sz, mx, name) in v {
+                            match sz {
+                                Ok(n) if n <= mx => {}
+                                other => {
+                                    t.st.violation(
+                                        &format!("C12:exceeds-declared-max:{}", name),
+                                        format!("{} (derive next to serde field attributes): a value encodes to {:?} bytes but POSTCARD_MAX_SIZE is {}", name, other.map_err(|e| err_label(&e)), mx),
+                                        vec![kv("kind", "c12"), kv("type", name), kv("declared_max", mx.to_string())],
+                                    );
+                                    return;
+                                }
+                            }
+                        }
+                    }
+                    Err(p) => {
+                        t.st.violation("C12:encode-failed", format!("serialising MSkip / MSkipE panicked: {}", p), vec![kv("kind", "c12"), kv("type", "MSkip")]);
+                        return;
+                    }
+                }
+            }
+        }
         // reference impls only serialise: declared maximum must equal the referent's
         if t.tid == 0 {
             t.st.eval();
@@ -394,7 +539,7 @@ pub fn run(cfg: &Cfg) -> Report {
     });
     rep.stats.merge(s);
     rep.rule = "cases = (type with a MaxSize impl, value): ~95 types - every built-in impl (ints, floats, bool, char, Option, Result, unit, arrays, tuples 1-6, refs, all NonZero*, PhantomData, four range types, \
-                Box/Rc/Arc, heapless Vec/String at capacities 0,1,127,128,16383,16384) and structs/enums/generics using the IN-TREE derive (unit/newtype/tuple/named structs, enums with 1,2,8,127,128,129 variants); \
+                Box/Rc/Arc, heapless Vec/String at capacities 0,1,127,128,16383,16384; heapless vectors of zero-sized elements at capacities 65535..2^21 and 2^32, 2^32+127, 2^35, 2^40+5, 2^49-1, 2^56, usize::MAX holding 0..2^21 elements) and structs/enums/generics using the IN-TREE derive (unit/newtype/tuple/named structs, enums with 1,2,8,127,128,129 variants; fields carrying serde attributes skip_deserializing / skip_serializing_if / default / rename); \
                 per type the harness's maximising value (extremes of every field, full containers, largest variant) plus random values decoded from reference encodings. distinct = (type, encoding)."
         .into();
     rep.assumptions = vec![
